@@ -129,7 +129,10 @@ pub enum Edit {
 pub enum TotalStake {
     /// unaltered key
     Keep,
-    /// smallest member stake / divisor (at least 1): every claimed lottery becomes a "win"
+    /// largest member stake / divisor (at least 1): the largest member's relative stake becomes
+    /// ~divisor, so that (nearly) every lottery it claims is a "win". The divisor is kept small by
+    /// the generator: the repo's lottery check (exact-rational Taylor series, up to 1000 terms)
+    /// takes minutes per certificate once stake / total_stake reaches the hundreds.
     ShrunkBy(u64),
     /// honest total stake * factor
     EnlargedBy(u64),
@@ -527,14 +530,14 @@ impl Workshop {
                     cert.signature = CertificateSignature::MultiSignature(entity, ms);
                 }
                 let honest_total: u64 = self.material.sets[*set].parties.iter().map(|p| p.1).sum();
-                let smallest = members
+                let largest = members
                     .iter()
                     .map(|i| sb.fixture.signers_fixture()[*i].signer_with_stake.stake)
-                    .min()
+                    .max()
                     .unwrap_or(1);
                 let forged_total = match total_stake {
                     TotalStake::Keep => None,
-                    TotalStake::ShrunkBy(d) => Some((smallest / (*d).max(1)).max(1)),
+                    TotalStake::ShrunkBy(d) => Some((largest / (*d).max(1)).max(1)),
                     TotalStake::EnlargedBy(f) => Some(honest_total.saturating_mul(*f)),
                 };
                 cert.aggregate_verification_key = match forged_total {
